@@ -65,9 +65,9 @@ RULE = (
     "sampled sub-intervals. Non-trivial = distinct (exon lengths, gaps, strand, CDS start index, CDS end index, number of "
     "CDS blocks, parent mode) with >= 2 exons or minus strand or a CDS that is a proper part of the transcript."
 )
-SCOPE = {"quick": {"GE": 8, "NR": 1600, "NI": 10}, "thorough": {"GE": 10, "NR": 24000, "NI": 30}}
+SCOPE = {"quick": {"GE": 7, "NR": 1600, "NI": 10}, "thorough": {"GE": 10, "NR": 24000, "NI": 30}}
 EXHAUSTIVE_SCOPE = {t: f"exon layouts over {s['GE']} positions, <= 3 exons, all CDS placements, all positions" for t, s in SCOPE.items()}
-FLOOR = {"quick": 3000, "thorough": 8000}
+FLOOR = {"quick": 4000, "thorough": 30000}
 REQUIRED_MONITORS = ["tx.pos-maps", "tx.interval-maps", "feature.maps", "cds.pos-maps", "cds.interval-maps", "cds-tx.maps",
                      "commute.paths", "commute.inverse", "cds.amino-acid", "utr.partition", "utr.empty-at-end",
                      "introns.span-minus-exons", "noncoding.refused"]
@@ -217,7 +217,7 @@ def cases(spec, ctx):
     for idx, case in _exhaustive(sc["GE"]):
         if idx % n != i:
             continue
-        k = idx // n
+        k = idx // n + ctx.seed  # the seed rotates which parent mode / strand rotation / start frame a placement is run with
         lo, hi = case.pop("_p")
         case["parent"] = _pspec(MODES[k % 4], lo, hi, case["glen"], k // 4)
         case["rot"] = k % 6
